@@ -36,17 +36,28 @@ def _alarm(signum, frame):
     raise RunTimeout()
 
 
+WALL_FACTOR = 6  # a run may take this many times its CPU budget in wall time (other jobs on the machine)
+
+
 def guarded(fn, timeout_s: float):
-    """Run fn() under the wall watchdog. Returns (value, timed_out)."""
-    old = signal.signal(signal.SIGALRM, _alarm)
-    signal.setitimer(signal.ITIMER_REAL, timeout_s)
+    """Run fn() under the per-run watchdog. Returns (value, timed_out).
+
+    The budget is *CPU time of this process* (ITIMER_PROF), so that a loaded machine - sixteen workers of this
+    check next to whatever else is running - cannot turn a slow but finite run into a "hang"; a run that blocks
+    without consuming CPU is caught by a wall timer at WALL_FACTOR times the budget."""
+    old_a = signal.signal(signal.SIGALRM, _alarm)
+    old_p = signal.signal(signal.SIGPROF, _alarm)
+    signal.setitimer(signal.ITIMER_PROF, timeout_s)
+    signal.setitimer(signal.ITIMER_REAL, WALL_FACTOR * timeout_s)
     try:
         return fn(), False
     except RunTimeout:
         return None, True
     finally:
+        signal.setitimer(signal.ITIMER_PROF, 0)
         signal.setitimer(signal.ITIMER_REAL, 0)
-        signal.signal(signal.SIGALRM, old)
+        signal.signal(signal.SIGALRM, old_a)
+        signal.signal(signal.SIGPROF, old_p)
 
 
 def isolated(fn, timeout_s=600):
@@ -108,7 +119,7 @@ def execute_guarded(batch, trace, prop, hang_is_violation) -> Result:
     res, timed_out = guarded(lambda: batch.execute(trace, prop), batch.per_run_timeout_s)
     if timed_out:
         res = Result()
-        res.hang = f"wall watchdog ({batch.per_run_timeout_s:.0f}s) expired"
+        res.hang = f"watchdog expired ({batch.per_run_timeout_s:.0f} s of CPU time or {WALL_FACTOR}x that in wall time)"
         res.digest = "hang"
     if res.hang and hang_is_violation and not res.violations:
         res.violate(prop, "hang", detail_text=res.hang)
@@ -127,7 +138,7 @@ def run_guarded(batch, seed, prop, hang_is_violation):
         if trace is None:
             trace = {"seed": seed, "note": "trace unavailable: run timed out during generation"}
         res = Result()
-        res.hang = f"wall watchdog ({batch.per_run_timeout_s:.0f}s) expired"
+        res.hang = f"watchdog expired ({batch.per_run_timeout_s:.0f} s of CPU time or {WALL_FACTOR}x that in wall time)"
         res.digest = "hang"
     else:
         trace, res = out
@@ -292,7 +303,7 @@ def _history_dependent(cd, batch, prop, kind, root, chunk_start, index, trace):
             return [v for v in r.violations if v["property"] == prop and v["kind"] == kind], r.digest, batch.describe(trace)
 
         try:
-            return isolated(body, batch.per_run_timeout_s * (len(indices) + 1) + 60)
+            return isolated(body, WALL_FACTOR * batch.per_run_timeout_s * (len(indices) + 1) + 60)
         except Exception:  # noqa: BLE001
             return [], "", None
 
@@ -325,7 +336,7 @@ def _minimise(cd, batch, trace, prop, kind):
     def still_fails(cand) -> bool:
         try:
             vios = isolated(lambda: execute_guarded(batch, cand, prop, cd.hang_is_violation).violations,
-                            batch.per_run_timeout_s + 30)
+                            WALL_FACTOR * batch.per_run_timeout_s + 30)
         except Exception:
             return False
         return any(v["kind"] == kind and v["property"] == prop for v in vios)
@@ -525,7 +536,7 @@ def run_check(prop: str, tier: str) -> int:
             return r.violations, r.digest, b.describe(t)
 
         try:
-            vios_f, digest_f, readable_f = isolated(_final, batch.per_run_timeout_s + 30)
+            vios_f, digest_f, readable_f = isolated(_final, WALL_FACTOR * batch.per_run_timeout_s + 30)
         except Exception as ex:  # noqa: BLE001
             agg.errors.append(f"confirmation of violation {kind} of run {batch_name}/{index} failed: {ex!r}")
             continue
